@@ -73,8 +73,8 @@ CHECKS = {
         design="DESIGN.md §4 C13",
     ),
     "C08": dict(
-        rules="R08.1-R08.5",
-        what="every SubtypeContext flag, proper_subtype and state.strict_optional is a component of the subtype memo key; every context/global attribute read by the subtype visitor is keyed; lookups and records address the same entry with the same key and operands and the right polarity; hashed fields of every Type class are compared by __eq__; join/meet tuple siblings share their preamble; the subtype caches are written only by visit_instance and is_protocol_implementation, and in the latter only when the question-changing parameters (class_obj, skip) are excluded; protocol checks about a class object (TypeType item, instance type of a type object) pass class_obj=True",
+        rules="R08.1-R08.7",
+        what="every SubtypeContext flag, proper_subtype and state.strict_optional is a component of the subtype memo key; every context/global attribute read by the subtype visitor is keyed; lookups and records address the same entry with the same key and operands and the right polarity; hashed fields of every Type class are compared by __eq__; join/meet tuple siblings share their preamble; the subtype caches are written only by visit_instance and is_protocol_implementation, and in the latter only when the question-changing parameters (class_obj, skip) are excluded; protocol checks about a class object (TypeType item, instance type of a type object) pass class_obj=True; no positive cache entry is recorded while a co-inductive assumption is pending; hashed fields of types are assigned only on objects the same function created (type-checking-time modules)",
         quant="pairs and triples of types",
         technique="who-may-read rule over subtypes.py against the key tuple; sibling cross-check of lookup/record and of __hash__/__eq__",
         note="Reflexivity, transitivity, join/meet bounds and union simplification are value-level laws and are not decided. The unkeyed reads of options.extra_checks/strict_concatenate are tabled as informational (no failing input).",
